@@ -134,18 +134,22 @@ class TokenFile:
                 if not pidpath.is_file():
                     logger.debug("Job already finished (no PID file)")
                 else:
-                    s = ""
-                    while s == "":
-                        s = pidpath.read_text()
+                    # The job lock is held, so nobody is writing the PID file:
+                    # an empty or partial file was left by a dead scheduler
+                    try:
+                        definition = json.loads(pidpath.read_text())
+                    except (json.JSONDecodeError, OSError):
+                        definition = None
 
-                    logger.info("Loading job watcher from definition")
-                    from experimaestro.connectors import Process
+                    if definition is not None:
+                        logger.info("Loading job watcher from definition")
+                        from experimaestro.connectors import Process
 
-                    # FIXME: not always localhost...
-                    from experimaestro.connectors.local import LocalConnector
+                        # FIXME: not always localhost...
+                        from experimaestro.connectors.local import LocalConnector
 
-                    connector = LocalConnector.instance()
-                    process = Process.fromDefinition(connector, json.loads(s))
+                        connector = LocalConnector.instance()
+                        process = Process.fromDefinition(connector, definition)
 
             # Wait out of the lock
             if process is not None:
